@@ -2,7 +2,7 @@
 
 COMMON_TB = [
     "Coq 8.16.1 kernel (coqc, full .vo build via coq_makefile; vm_compute used only for finite-domain instance lemmas; no native_compute)",
-    "extraction: ExtrOcamlBasic + ExtrOcamlNativeString (byte -> char, string -> OCaml string); N/Z/positive stay Coq's inductives; OCaml 4.13.1; ocaml/driver.ml",
+    "extraction: ExtrOcamlBasic + ExtrOcamlNativeString (byte -> char, string -> OCaml string) + one hand-written directive: Extract Constant List.rev => OCaml List.rev; N/Z/positive/nat stay Coq's inductives; OCaml 4.13.1; ocaml/driver.ml",
     "Go harness (harness/*.go): generators, oracle collection with os.* and fileglob.*, projection of observations; translators/*.go for coq/Gen/*.v",
 ]
 
@@ -66,4 +66,13 @@ PROPS["C04"] = {
              "plus generated configurations with every compression setting, x 5 formats; each package is read end to end by the independent decoders; "
              "distinct = distinct YAML documents; non-trivial = at least two content entries"),
     "trusted_base": PKG_TB, "assumptions": [],
+}
+
+PROPS["C02"] = {
+    "level": "proof", "harness": "C02", "driver": "C02",
+    "rule": ("cases = generated configurations (14 architectures incl. every documented GOARCH and per-format overrides, semver and free-form versions with all combinations of epoch / prerelease / metadata / release, "
+             "unicode / multi-line / blank-line / CRLF / dot-line / 70 KB-line descriptions, relation lists of length 0-3 with version constraints, custom fields, triggers, ipk extras, rpm group/summary/prefixes) x 5 formats; "
+             "the raw control / .PKGINFO text is compared byte for byte with the model's rendering, rpm header tags per tag; distinct = distinct YAML documents; non-trivial = at least two content entries"),
+    "trusted_base": PKG_TB + ["text/template and rpmpack's header index are modelled by their output (compared byte for byte / tag by tag)"],
+    "assumptions": ["descriptions contain no Unicode white space other than ASCII (strings.TrimSpace is modelled on ASCII)"],
 }
